@@ -918,7 +918,7 @@ def plan(tier):
             p.append((LifecycleAdapter([n], rd=0, listener=True), 4, 30000, 1500))
             if c["kind"] == "service":
                 p.append((LifecycleAdapter([n], rd=2, prefix=[("req", 0, "restart")] + [("tick",)] * 4), 5, 60000, 1500))
-                p.append((LifecycleAdapter([n], rd=3, prefix=[("req", 0, "restart"), ("tick",), ("req", 0, "disable"),
+                p.append((LifecycleAdapter([n], rd=3, prefix=[("req", 0, "restart"), ("tick",), ("tick",), ("req", 0, "disable"),
                                                               ("req", 0, "enable"), ("req", 0, "start")]), 5, 60000, 1500))
             if c["kind"] == "application" and not c["system"]:
                 p.append((LifecycleAdapter([n], rd=1, init="running"), 6, 60000, 1500))
@@ -936,7 +936,7 @@ def plan(tier):
                 # start state: the service has been restarted once and is running again (a second timed transition)
                 p.append((LifecycleAdapter([n], rd=2, api=False, prefix=[("req", 0, "restart")] + [("tick",)] * 4), 3, 4000, 120))
                 # ... and: a restart that was cut short (disabled one step into it), then enabled and started again
-                p.append((LifecycleAdapter([n], rd=3, api=False, prefix=[("req", 0, "restart"), ("tick",), ("req", 0, "disable"),
+                p.append((LifecycleAdapter([n], rd=3, api=False, prefix=[("req", 0, "restart"), ("tick",), ("tick",), ("req", 0, "disable"),
                                                                         ("req", 0, "enable"), ("req", 0, "start")]), 3, 4000, 120))
         for pr in _pairs(items):
             p.append((LifecycleAdapter(pr, rd=1, init="running"), 2, 2000, 120))
